@@ -23,6 +23,9 @@ shrunk failing input):
   6 TextIndex.sort: empty result no longer returned unchanged
   7 CosineIndex.query_weight sums idf instead of idf^2
   8 AndNode.executeQuery no longer subtracts the NOT results
+Repeated one-word queries with DICT_CUTOFF 2 / 3 / default (see C08): seeded change C08_F (setops._trivial scales in
+place) and C08's mutations 10 (single-operand intersection, reached through a word+stop-word phrase) and 11 (single-match
+glob) give VIOLATION here on quick seed 0; 10 and 11 were run against the generator as it was before and were missed.
 """
 import random
 
@@ -110,8 +113,17 @@ def gen(rng, tier, idx):
     vocab = list(range(1, nvocab + 1))
     ids = list(range(1, 9)) + ([2 ** 31 - 1, -5] if fam == 32 else [2 ** 40, -5])
     ndocs = rng.choice([2, 3, 4, 5, 6, 8, 12])
+    # DICT_CUTOFF as an instance setting (see C08): beyond it a word's stored docid -> weight map is the IFBTree the
+    # cosine back end hands to the set operations uncopied
+    cutoff = rng.choice([None, None, 2, 2, 3, 3])
+    common = None
+    if cutoff is None and rng.random() < 0.3:
+        ndocs = rng.choice([12, 13, 16])
+        common = rng.choice(vocab)
     if ndocs > len(ids):
         ids = ids + list(range(100, 100 + ndocs))
+    if common is not None:
+        ids = ids[:ndocs + 1]
     cmds = []
     table = {}
     lexn = [0]
@@ -127,9 +139,14 @@ def gen(rng, tier, idx):
         for _ in range(nops):
             r = rng.random()
             known = list(table)
-            if r < 0.6 or not known:
+            if r < (0.6 if common is None or len(table) > 11 else 0.92) or not known:
                 d = rng.choice(ids)
+                if common is not None and rng.random() < 0.7:
+                    fresh = [x for x in ids if x not in table]
+                    d = rng.choice(fresh) if fresh else d
                 ws = base.gen_doc(rng, vocab, False)
+                if common is not None and common not in ws and rng.random() < 0.9:
+                    ws.insert(rng.randrange(len(ws) + 1), common)
                 cmds.append(["index", d] + ws)
                 table[d] = ws
             elif r < 0.8:
@@ -231,6 +248,49 @@ def gen(rng, tier, idx):
             lim = rng.choice(["none", "none", 0, 1, 2, 3, 50])
             cmds.append(["applysort", rng.randrange(2), lim] + base.tree_tokens(t))
 
+    def frequent_word():
+        df = {}
+        for ws in table.values():
+            for w in set(ws):
+                df[w] = df.get(w, 0) + 1
+        if not df:
+            return rng.choice(vocab)
+        top = max(df.values())
+        return rng.choice(sorted(w for w, n in df.items() if n == top))
+
+    def one_word_tree(w):
+        r = rng.random()
+        if r < 0.6:
+            return ("a", new_term([w]))
+        if r < 0.75:
+            # a phrase of the word and a stop word: search_phrase with ONE word id (single-operand intersection)
+            parts = [new_term([w]), new_term([])]
+            if rng.random() < 0.5:
+                parts.reverse()
+            lexn[0] += 1
+            pid = lexn[0]
+            terms[pid] = [w]
+            cmds.append(["lexp", pid, "_".join("t%d" % i for i in parts), w])
+            return ("p", pid, parts)
+        gid = new_term([w] if r < 0.9 else [])          # the pattern itself in or out of the vocabulary
+        cmds.append(["lex", "g", gid, w])
+        return ("g", gid)
+
+    def repeated_reads():
+        """the SAME one-word query through TextIndex.apply before and after other reads of the unchanged corpus"""
+        w = frequent_word() if rng.random() < 0.85 else rng.choice(vocab)
+        toks = base.tree_tokens(one_word_tree(w))
+        op = rng.choice(["apply", "apply", "applyb" if toks[0] == "a" else "apply", "applysort"])
+        first = [op] + ([rng.randrange(2), rng.choice(["none", 2, 50])] if op == "applysort" else []) + toks
+        cmds.append(list(first))
+        for _ in range(rng.choice([1, 1, 2])):
+            r = rng.random()
+            if r < 0.4:
+                tree_cmds()
+            elif r < 0.7:
+                cmds.append(["apply"] + base.tree_tokens(one_word_tree(w)))
+            cmds.append(list(first) if rng.random() < 0.7 else ["apply"] + toks)
+
     def sort_cmds():
         n = rng.choice([0, 1, 2, 3, 5, 8])
         ds = rng.sample(ids, min(n, len(ids)))
@@ -269,6 +329,8 @@ def gen(rng, tier, idx):
     first = len(cmds)
     for _ in range(rng.randrange(2, 5)):
         tree_cmds()
+    if rng.random() < 0.6:
+        repeated_reads()
     asked = [c for c in cmds[first:] if c[0] in ("apply", "applyb", "applysort")]
     if rng.random() < 0.6:
         if rng.random() < 0.5:
@@ -281,10 +343,14 @@ def gen(rng, tier, idx):
             cmds.append(list(c))
         for _ in range(rng.randrange(0, 2)):
             tree_cmds()
+        if rng.random() < 0.35:
+            repeated_reads()
     for _ in range(rng.randrange(0, 3)):
         sort_cmds()
-    return {"session": "score", "cfg": [["cfg", "kind", kind], ["cfg", "impl", "text"], ["cfg", "fam", fam]],
-            "cmds": cmds}
+    cfg = [["cfg", "kind", kind], ["cfg", "impl", "text"], ["cfg", "fam", fam]]
+    if cutoff:
+        cfg.append(["cfg", "cutoff", cutoff])
+    return {"session": "score", "cfg": cfg, "cmds": cmds}
 
 
 # ----------------------------------------------------------------------------
@@ -299,6 +365,8 @@ def impl_run(hyp, case):
     fam = BTrees.family32 if cfg["fam"] == 32 else BTrees.family64
     lex = base.StubLexicon()
     inner = CosineIndex(lex, family=fam) if cfg["kind"] == "cosine" else okapiindex.OkapiIndex(lex, family=fam)
+    if cfg.get("cutoff"):
+        inner.DICT_CUTOFF = int(cfg["cutoff"])
     ti = TextIndex("text", lexicon=lex, index=inner, family=fam)
     outs = []
 
@@ -399,9 +467,25 @@ def nontrivial(case, outs):
 
 def features(case, outs):
     cfg = cfgdict(case)
-    f = ["kind:" + cfg["kind"], "fam:%s" % cfg["fam"]]
-    for c, o in zip(case["cmds"], outs):
+    f = ["kind:" + cfg["kind"], "fam:%s" % cfg["fam"], "cutoff:%s" % (cfg.get("cutoff") or "default")]
+    cutoff = int(cfg.get("cutoff") or 10)
+    read = {}
+    for (i, c, table, terms, globs), o in zip(base.replay_tables(case), outs):
         op = c[0]
+        if op in ("index", "reindex", "unindex", "reset"):
+            read = {}
+        if op in ("apply", "applyb", "applysort"):
+            toks = [t for t in (c[3:] if op == "applysort" else c[1:]) if not str(t).startswith("w:")]
+            if toks[0] in ("a", "g", "p") and len(toks) == 2:
+                w = (globs if toks[0] == "g" else terms).get(toks[1], [])
+                df = {x: sum(1 for ws in table.values() if x in ws) for x in set(w)}
+                if len(w) == 1 and df[w[0]]:
+                    tree = "stored-tree" if df[w[0]] > cutoff else "dict"
+                    read[w[0]] = read.get(w[0], 0) + 1
+                    if read[w[0]] >= 2:
+                        f.append("repeat:one-word-query-again:%s:%s" % (tree, cfg["kind"]))
+                        f.append("repeat:one-word-%s-again:%s:%s" % ({"a": "atom", "g": "glob", "p": "phrase"}[toks[0]],
+                                                                     tree, cfg["kind"]))
         if op in ("index", "lex", "lexp"):
             continue
         f.append("op:" + op)
@@ -435,6 +519,9 @@ def features(case, outs):
                     f.append("sort:ties")
                 if o == "same":
                     f.append("sort:empty-returned-unchanged")
+    for k in sorted(set(f)):
+        if k.startswith("repeat:"):
+            f.append("case:" + k)
     return f
 
 
@@ -445,7 +532,11 @@ RULE = ("corpora as in C08 (histories of index/reindex/unindex/reset through Tex
         "apply (values), 30% arbitrary trees incl. globs (values only), 20% apply followed by sort / "
         "ResultSet.sort(text index) with limits none/0/1/2/3/50 and reverse; 0-2 sort calls on hand-made "
         "weighted results (IF buckets, IF BTrees, dicts; 0-8 ids, scores from 5 values -> ties; limits incl. "
-        "0 and negative; reverse) or on unweighted results (IF sets, lists; TypeError unless empty). "
+        "0 and negative; reverse) or on unweighted results (IF sets, lists; TypeError unless empty); DICT_CUTOFF "
+        "2 / 3 / default as in C08 and, in 60% of the corpora, the SAME one-word query (atom, single-match glob, "
+        "word+stop-word phrase) on the most frequent word through apply / applyb / applysort before and after "
+        "other reads of the unchanged corpus (measured quick seed 0, of 912 corpora: 587 repeat on a dict posting, "
+        "139 on a stored IFBTree posting - 66 cosine; by form atom 111, glob 54, phrase 28 on stored trees). "
         "non-trivial = a scored apply with >= 2 documents and an applyb inside the hypotheses")
 LEVEL_TEXT = ("Lean 4 theorems over the reals: TextIndex.apply = raw score / query_weight (raw if the weight is "
               "0) for every tree; for every glob-free tree, every history and every lexicon each raw score is a "
